@@ -289,6 +289,7 @@ class SSETransport(Transport):
     async def _process_sse_stream(self):
         """Process the SSE event stream."""
         current_event = None
+        data_lines: list = []
         buffer = ""
 
         assert self._sse_response is not None
@@ -304,37 +305,49 @@ class SSETransport(Transport):
                 line = line.rstrip("\r")
 
                 if not line:
-                    # Empty line marks end of event
+                    # Empty line marks end of event: dispatch what was collected
+                    if data_lines:
+                        await self._dispatch_sse_event(
+                            current_event, "\n".join(data_lines).strip()
+                        )
                     current_event = None
+                    data_lines = []
                     continue
 
-                # Parse SSE format
-                if line.startswith("event: "):
-                    current_event = line[7:].strip()
+                if line.startswith(":"):
+                    continue  # comment
+
+                # Parse SSE format: "field: value", "field:value" or "field"
+                field, _, value = line.partition(":")
+                if value.startswith(" "):
+                    value = value[1:]
+
+                if field == "event":
+                    current_event = value.strip()
                     logger.debug(f"SSE event type: {current_event}")
+                elif field == "data":
+                    # An event's data may be spread over several data lines
+                    data_lines.append(value)
 
-                elif line.startswith("data: "):
-                    data = line[6:].strip()
-
-                    # Handle different event types
-                    if current_event == "endpoint":
-                        await self._handle_endpoint_event(data)
-                    elif current_event == "message":
-                        await self._handle_message_event(data)
-                    elif current_event == "keepalive":
-                        logger.debug("Received keepalive")
-                    else:
-                        # Handle data without explicit event type
-                        # Check if it's an endpoint announcement (contains /messages/ or /mcp)
-                        if not self._message_url and (
-                            "/messages/" in data or "/mcp" in data
-                        ):
-                            await self._handle_endpoint_event(data)
-                        # Check if it's JSON-RPC data
-                        elif data.startswith("{") and '"jsonrpc"' in data:
-                            await self._handle_message_event(data)
-                        else:
-                            logger.debug(f"Unknown data: {data[:100]}...")
+    async def _dispatch_sse_event(self, current_event: Optional[str], data: str) -> None:
+        """Handle one complete SSE event."""
+        # Handle different event types
+        if current_event == "endpoint":
+            await self._handle_endpoint_event(data)
+        elif current_event == "message":
+            await self._handle_message_event(data)
+        elif current_event == "keepalive":
+            logger.debug("Received keepalive")
+        else:
+            # Handle data without explicit event type
+            # Check if it's an endpoint announcement (contains /messages/ or /mcp)
+            if not self._message_url and ("/messages/" in data or "/mcp" in data):
+                await self._handle_endpoint_event(data)
+            # Check if it's JSON-RPC data
+            elif data.startswith("{") and '"jsonrpc"' in data:
+                await self._handle_message_event(data)
+            else:
+                logger.debug(f"Unknown data: {data[:100]}...")
 
     async def _handle_endpoint_event(self, data: str) -> None:
         """Handle the endpoint event from SSE."""
